@@ -39,7 +39,7 @@ RULE = (
     "(history, slot) logs; non-trivial = every run (>= 10 configurations each)"
 )
 LEVEL_TEXT = (
-    "The same seeded histories run in K interpreters with different PYTHONHASHSEED plus fresh interpreters; hashes, file names and serialised text must agree entry by entry across processes, and inside each process every configuration must round-trip field by field, equal-content configurations must hash equal, and single-field variants must hash differently. Sampling over configurations, not proof. Inside each history live configurations are mutated in place (container fields and assignments) and must keep the identity of a freshly built equal configuration; variants cover retyped and None-valued arguments, seeds over the whole 32-bit range, recorded filters added / removed / reordered; one interpreter slot in three and half of the fresh twins run under python -O.",
+    "The same seeded histories run in K interpreters with different PYTHONHASHSEED plus fresh interpreters; hashes, file names and serialised text must agree entry by entry across processes, and inside each process every configuration must round-trip field by field, equal-content configurations must hash equal, and single-field variants must hash differently. Sampling over configurations, not proof. Inside each history live configurations are mutated in place (container fields and assignments) and must keep the identity of a freshly built equal configuration; variants cover retyped and None-valued arguments, seeds over the whole 32-bit range, recorded filters added / removed / reordered; the serialised form of an equal donor configuration is edited everywhere and must not reach the live or a later-built configuration; one interpreter slot in three and half of the fresh twins run under python -O.",
     "Trusted: muutils.misc.sanitize_fname / shorten_numerical_to_str (third party) for the file-name model; json.",
 )
 
